@@ -30,7 +30,7 @@ EXPLANATION = ("The affine is 12 symbolic reals (any rotation, shear, flip; colu
                "corner-based Neuroglancer coordinates of a voxel map to the nanometre position the file's affine gives its "
                "centre. Size, channel count, resolution, data type and sharding spec of the generated info are checked for "
                "enumerated shapes/dtypes.")
-BOUNDS = {"quick": "all real affines with voxel sizes from {0.375, 0.5, 1, 2, 3, 4} (8 triples; values for which voxel size * 10^6 is exact in binary floating point); shapes 3-D/4-D, stored dtypes uint8, uint16, int16, "
+BOUNDS = {"quick": "all real affines with voxel sizes from {0.375, 0.5, 1, 2, 3, 4} (8 triples) plus three triples with sub-nanometre / very large sizes (2^-30 .. 1024 mm; values for which voxel size * 10^6 is exact in binary floating point); shapes 3-D/4-D, stored dtypes uint8, uint16, int16, "
                    "float32, float64, with/without header scaling; sharding strings '1,2,3' / gzip; compact form: 4x4 matrices with one or two "
                    "symbolic entries D*10^-k, every integer |D| < 10^6 (all digit counts / trailing-zero patterns), every k in -20..20, "
                    "among fixed entries covering integers, fractions, exponent notation of both signs",
